@@ -30,19 +30,20 @@ def send_time_bound_ns(arc, ard_us, force_retry, aw, nbytes, crc, rate_kbps, ack
     """Upper bound on the duration of one send() of one payload, derived from the retry
     configuration (datasheet 7.4/7.8): a *round* is one CE-started Enhanced ShockBurst
     transaction = (1+ARC) transmissions, each costing TX settling (130 us) + packet air time +
-    ARD (the PTX waits ARD for the ACK, then retransmits or raises MAX_RT); an ACK whose address
-    was detected just before the last time-out is still received completely (<= settling + air
-    time of a 32-byte ACK payload).  send(force_retry=k) may run 1+k rounds.  Around each round
-    the MCU needs a bounded number of SPI transactions (flushes, flag clearing, payload upload,
-    one polling period of detection latency, ACK payload download): `spi_txns` transactions of
-    at most 34 bytes.  `slack_ns` covers Tpd2stby-style fixed delays (150 us) and clock reads.
-    A transmission that does not wait for an acknowledgement (NO_ACK / auto-ack off) is one
-    settling + one air time."""
+    the wait for the ACK: ARD, or - when an ACK packet whose address was detected inside ARD is
+    longer than ARD (ACK payloads of up to `ack_bytes` with a short ARD) - until that ACK has
+    been received completely (130 us turnaround of the PRX + ACK air time), whichever is longer;
+    then the PTX retransmits or raises MAX_RT.  send(force_retry=k) may run 1+k rounds.  Around
+    each round the MCU needs a bounded number of SPI transactions (flushes, flag clearing,
+    payload upload, one polling period of detection latency, ACK payload download):
+    `spi_txns` transactions of at most 34 bytes.  `slack_ns` covers Tpd2stby-style fixed delays
+    (150 us) and clock reads.  A transmission that does not wait for an acknowledgement
+    (NO_ACK / auto-ack off) is one settling + one air time."""
     air = airtime_ns(aw, nbytes, crc, rate_kbps)
     txn = spi_cost_ns + 34 * 800
     if not acked:
         return 130000 + air + spi_txns * txn + slack_ns
-    per_attempt = 130000 + air + ard_us * 1000
-    late_ack = 130000 + airtime_ns(aw, ack_bytes, crc, rate_kbps)
-    per_round = (1 + arc) * per_attempt + late_ack + spi_txns * txn
+    ack_wait = max(ard_us * 1000, 130000 + airtime_ns(aw, ack_bytes, crc, rate_kbps) + 2000)
+    per_attempt = 130000 + air + ack_wait
+    per_round = (1 + arc) * per_attempt + spi_txns * txn
     return (1 + force_retry) * per_round + slack_ns
